@@ -541,7 +541,9 @@ def _dbg(theorems, rule, extra_assumptions=()):
                         "every memory word against the loaded image, stdout, input consumed, the sequence of executed "
                         "addresses (count + hash), the interleaving of command reads and executions (count + hash), the "
                         "breakpoint list with predefined/run-time marks, every non-empty stderr line, and the property's "
-                        "own verdict evaluated on the implementation. Non-trivial: executed ≥ 1 instruction and read ≥ 1 command."),
+                        "own verdict evaluated on the implementation. One session in five (programs without the REG trap) runs in "
+                        "the normal, non --minimal output mode; there the debugger's own prints are not compared, everything else "
+                        "is. Non-trivial: executed ≥ 1 instruction and read ≥ 1 command."),
         "trusted": _DBG_COMMON_TRUSTED,
         "assumptions": list(extra_assumptions),
     }
